@@ -16,6 +16,7 @@ import (
 	"time"
 
 	bsmsg "github.com/ipfs/boxo/bitswap/message"
+	bspb "github.com/ipfs/boxo/bitswap/message/pb"
 	"github.com/ipfs/boxo/blockstore"
 	"github.com/ipfs/boxo/exchange"
 	blocks "github.com/ipfs/go-block-format"
@@ -26,6 +27,7 @@ import (
 	"github.com/libp2p/go-libp2p/p2p/net/conngater"
 	"github.com/cometbft/cometbft/types"
 	"go.uber.org/fx"
+	"google.golang.org/protobuf/proto"
 
 	libshare "github.com/celestiaorg/go-square/v4/share"
 	"github.com/celestiaorg/rsmt2d"
@@ -62,12 +64,13 @@ var v6BsKinds = []string{
 }
 
 // A bitswap peer is "<kind>" or "<kind>/<rest>/<batch>" with rest in {honest, silent} (what it sends
-// for the other wanted CIDs) and batch in {one, sep} (one message or one message per block).
-func v6ParseBsPeer(p string) (kind, rest string, batch bool) {
+// for the other wanted CIDs) and batch in {one, rev, sep}: one message with the block for the first
+// wanted CID first / the same with that block last / one message per block.
+func v6ParseBsPeer(p string) (kind, rest, batch string) {
 	parts := strings.Split(p, "/")
-	kind, rest, batch = parts[0], "honest", true
+	kind, rest, batch = parts[0], "honest", "one"
 	if len(parts) == 3 {
-		rest, batch = parts[1], parts[2] == "one"
+		rest, batch = parts[1], parts[2]
 	}
 	return
 }
@@ -294,23 +297,19 @@ func (x *v6Exchange) entry(ctx context.Context, kind string, c cid.Cid) *v6BsEnt
 // message decoder recomputes every block's CID with the multihash registered for its prefix
 // (celestia's verifying hasher); a failure drops the whole message; blocks nobody wants are dropped.
 func (x *v6Exchange) receive(ctx context.Context, entries []*v6BsEntry, wanted map[cid.Cid]bool, out chan<- blocks.Block) {
-	m := bsmsg.New(false)
+	// the wire message is assembled by hand so that the order of its payload entries is the scripted one
+	pbm := &bspb.Message{}
 	allHonest := true
 	for _, e := range entries {
-		b, err := blocks.NewBlockWithCid(e.data, e.claimed)
-		if err != nil {
-			x.w.fail("building bitswap block: %v", err)
-			return
-		}
-		m.AddBlock(b)
+		pbm.Payload = append(pbm.Payload, &bspb.Message_Block{Prefix: e.claimed.Prefix().Bytes(), Data: e.data})
 		allHonest = allHonest && e.honest
 	}
-	var buf bytes.Buffer
-	if err := m.ToNetV1(&buf); err != nil {
+	raw, err := proto.Marshal(pbm)
+	if err != nil {
 		x.w.fail("encoding bitswap message: %v", err)
 		return
 	}
-	in, _, err := bsmsg.FromNet(&buf)
+	in, _, err := bsmsg.FromNet(bytes.NewReader(append(v6Uvarint(len(raw)), raw...)))
 	if err != nil {
 		x.w.logf("bitswap: message of %d block(s) dropped by the decoder", len(entries))
 		return
@@ -318,7 +317,9 @@ func (x *v6Exchange) receive(ctx context.Context, entries []*v6BsEntry, wanted m
 	if ctx.Err() != nil {
 		return
 	}
-	for _, b := range in.Blocks() {
+	blks := in.Blocks()
+	sort.Slice(blks, func(i, j int) bool { return blks[i].Cid().KeyString() < blks[j].Cid().KeyString() })
+	for _, b := range blks {
 		if !wanted[b.Cid()] {
 			x.w.logf("bitswap: unwanted block dropped")
 			continue
@@ -365,27 +366,37 @@ func (x *v6Exchange) run(ctx context.Context, cids []cid.Cid, out chan blocks.Bl
 		x.w.mu.Unlock()
 		x.w.logf("bitswap peer #%d answers %s", i, p)
 		var entries []*v6BsEntry
-		first := true
+		first, firstSent := true, false
 		for _, c := range order {
 			if !wanted[c] {
 				continue
 			}
-			k := kind
+			k, isFirst := kind, first
 			if !first {
 				k = rest
 			}
 			first = false
-			if e := x.entry(ctx, k, c); e != nil {
+			e := x.entry(ctx, k, c)
+			if e != nil {
 				entries = append(entries, e)
+				if isFirst {
+					firstSent = true
+				}
 			}
 		}
-		if batch {
-			if len(entries) > 0 {
-				x.receive(ctx, entries, wanted, out)
-			}
-		} else {
+		switch batch {
+		case "sep":
 			for _, e := range entries {
 				x.receive(ctx, []*v6BsEntry{e}, wanted, out)
+			}
+		case "rev":
+			if len(entries) > 1 && firstSent {
+				entries = append(entries[1:], entries[0])
+			}
+			fallthrough
+		default:
+			if len(entries) > 0 {
+				x.receive(ctx, entries, wanted, out)
 			}
 		}
 		if len(wanted) == 0 {
@@ -486,11 +497,16 @@ func v6RunCase(t *testing.T, env *v6Env, c v6Case) (res v6Result) {
 			}
 		}
 	}()
-	synctest.Test(t, func(*testing.T) { res = v6Exec(env, c) })
+	if c.Local == "hit" {
+		// The local store answers by itself: no peer, no timer is involved. The store's proof cache uses a
+		// process-wide worker pool whose goroutines cannot touch channels of a bubble, so this runs outside.
+		return v6Exec(env, c, false)
+	}
+	synctest.Test(t, func(*testing.T) { res = v6Exec(env, c, true) })
 	return res
 }
 
-func v6Exec(env *v6Env, c v6Case) (res v6Result) {
+func v6Exec(env *v6Env, c v6Case, bubble bool) (res v6Result) {
 	sqr := env.squares[c.Sq]
 	height := env.base + uint64(c.Sq)
 	if c.Local == "hit" {
@@ -645,7 +661,11 @@ func v6Exec(env *v6Env, c v6Case) (res v6Result) {
 		}
 	}()
 	returned := true
-	limit := time.NewTimer(3 * time.Hour) // fake time: far beyond every deadline and every internal time-out
+	limitD := 3 * time.Hour // fake time: far beyond every deadline and every internal time-out
+	if !bubble {
+		limitD = time.Minute // real time
+	}
+	limit := time.NewTimer(limitD)
 	select {
 	case <-doneCh:
 	case <-limit.C:
@@ -667,26 +687,33 @@ func v6Exec(env *v6Env, c v6Case) (res v6Result) {
 	}
 	if !returned {
 		// give the call one more chance to end now that everything is cancelled, so the bubble can be left
-		tm := time.NewTimer(time.Hour)
+		tm := time.NewTimer(limitD / 3)
 		select {
 		case <-doneCh:
 		case <-tm.C:
 		}
 		tm.Stop()
 	}
-	synctest.Wait()
+	if bubble {
+		synctest.Wait()
+	}
 
 	// --- observations
 	w.mu.Lock()
 	res.Log = append([]string(nil), w.log...)
 	res.Served = append([]string(nil), w.served...)
 	arrived := append([]string(nil), w.arrived...)
+	arrivedBy := map[string][]string{}
+	for k, v := range w.arrivedBy {
+		arrivedBy[k] = append([]string(nil), v...)
+	}
 	res.Harness = w.harnessErr
 	honestRead := map[string]bool{}
 	for k, v := range w.honestRead {
 		honestRead[k] = v
 	}
 	w.mu.Unlock()
+	res.Log = v6Canonical(c, res.Log)
 	sort.Strings(res.Log)
 	for _, a := range arrived {
 		if a != "honest" && a != "bs:honest" {
@@ -700,7 +727,7 @@ func v6Exec(env *v6Env, c v6Case) (res v6Result) {
 	}
 
 	// --- verdict
-	res.Outcome, res.Sig, res.What = v6Judge(c, sqr, out, returned, keys, honestRead, ex, arrived)
+	res.Outcome, res.Sig, res.What = v6Judge(c, sqr, out, returned, keys, honestRead, ex, arrived, arrivedBy)
 	res.Log = append(res.Log, "outcome: "+res.Outcome)
 	res.Positive = v6IsPositive(c)
 	return res
@@ -708,40 +735,83 @@ func v6Exec(env *v6Env, c v6Case) (res v6Result) {
 
 // v6IsPositive: the very first answer the getter can receive is the honest one and the time allows it.
 func v6IsPositive(c v6Case) bool {
-	long := c.D == "none" || c.D == "d5m0s" || c.D == "d2.5s" || c.D == "d8.5s"
+	d := v6CaseDeadline(c)
 	switch c.Wiring {
-	case "shrex":
+	case "shrex", "light", "bridge":
+		if c.Local == "hit" {
+			return true
+		}
 		if len(c.Seq) == 0 || c.Seq[0] != "honest" {
 			return false
 		}
 		if len(c.Req.Coords) > 1 && (len(c.Seq2) == 0 || c.Seq2[0] != "honest") {
 			return false
 		}
-		return long
+		if c.Wiring == "shrex" {
+			return d > v6Latency
+		}
+		return d == 0 || d/2 > v6Latency // the first getter of a cascade gets at least half of the caller's time
 	case "bs-light", "bs-bridge":
-		return len(c.Bs) > 0 && c.Bs[0] == "honest" && !c.BsErr && long
-	case "bridge":
-		return c.Local == "hit"
+		return len(c.Bs) > 0 && v6BsTerminal(c.Bs[0]) && !c.BsErr && d > v6Latency
 	}
 	return false
 }
 
-func v6ErrClass(err error) string {
+// v6ErrClass is the canonical outcome label. Two things the implementation leaves to the scheduler are
+// deliberately not part of it: which of two concurrently failing sample requests reports its error first
+// (errgroup), and whether a cascade whose last getter has the caller's own deadline notices that deadline
+// before or after the getter's error (both timers are armed for the same instant).
+func v6ErrClass(c v6Case, err error) string {
 	switch {
 	case err == nil:
 		return "ok"
-	case errors.Is(err, shwap.ErrNotFound) && errors.Is(err, context.DeadlineExceeded):
-		return "err:notfound+deadline"
-	case errors.Is(err, shwap.ErrNotFound) && errors.Is(err, context.Canceled):
-		return "err:notfound+canceled"
-	case errors.Is(err, shwap.ErrNotFound):
-		return "err:notfound"
+	case len(c.Req.Coords) > 1:
+		return "err"
 	case errors.Is(err, context.DeadlineExceeded):
+		if c.Wiring == "shrex" && errors.Is(err, shwap.ErrNotFound) {
+			return "err:notfound+deadline"
+		}
 		return "err:deadline"
 	case errors.Is(err, context.Canceled):
+		if c.Wiring == "shrex" && errors.Is(err, shwap.ErrNotFound) {
+			return "err:notfound+canceled"
+		}
 		return "err:canceled"
+	case errors.Is(err, shwap.ErrNotFound):
+		return "err:notfound"
 	}
 	return "err:other"
+}
+
+// v6CaseDeadline: the instant (fake time since the call) the caller's context ends; 0 = never.
+func v6CaseDeadline(c v6Case) time.Duration {
+	if len(c.D) > 1 && (c.D[0] == 'd' || c.D[0] == 'c') {
+		if d, err := time.ParseDuration(c.D[1:]); err == nil {
+			return d
+		}
+	}
+	return 0
+}
+
+// v6Canonical drops what happens at or after the instant the caller's context ends: whether the retry
+// loop squeezes in one more (immediately abandoned) attempt at that very instant depends on which of two
+// timers armed for the same instant fires first.
+func v6Canonical(c v6Case, log []string) []string {
+	d := v6CaseDeadline(c)
+	if d == 0 {
+		return log
+	}
+	var out []string
+	for _, l := range log {
+		var ts string
+		if _, err := fmt.Sscanf(l, "t=%s ", &ts); err == nil {
+			if t, err := time.ParseDuration(ts); err == nil && t >= d {
+				continue
+			}
+		}
+		out = append(out, l)
+	}
+	return out
 }
 
 // v6PanicSite names the innermost repository function on the panicking stack.
@@ -780,7 +850,7 @@ func v6PanicSite(stack string) string {
 //  4. if every answer that arrived was NOT_FOUND, the error is not success and not a corruption error, and
 //     - where no deadline of the caller interferes - it is shwap.ErrNotFound.
 func v6Judge(c v6Case, s *v6Square, out *v6CallOut, returned bool, keys []string,
-	honestRead map[string]bool, ex *v6Exchange, arrived []string,
+	honestRead map[string]bool, ex *v6Exchange, arrived []string, arrivedBy map[string][]string,
 ) (outcome, sig, what string) {
 	cl := c.Req.Class()
 	if out.pan != nil {
@@ -792,7 +862,7 @@ func v6Judge(c v6Case, s *v6Square, out *v6CallOut, returned bool, keys []string
 			fmt.Sprintf("%s: the call had not returned 3h (fake time) after it was made", c)
 	}
 	filled, total, bad := v6CheckValue(c.Req, s, out.val)
-	outcome = v6ErrClass(out.err)
+	outcome = v6ErrClass(c, out.err)
 	if out.err != nil && filled > 0 {
 		outcome += fmt.Sprintf("+partial(%d/%d)", filled, total)
 	}
@@ -856,7 +926,11 @@ func v6Judge(c v6Case, s *v6Square, out *v6CallOut, returned bool, keys []string
 			return outcome + "+NOTFOUND-AS-CORRUPTION", "C06/notfound-as-corruption/" + cl,
 				fmt.Sprintf("%s: every answer that arrived was NOT_FOUND, the error reports corruption: %q", c, v6Short(out.err))
 		}
+		// strict: every request of the call was answered (only) NOT_FOUND, and no deadline of the caller cuts a cascade short
 		strict := c.Wiring == "shrex" || c.D == "none"
+		for _, k := range keys {
+			strict = strict && len(arrivedBy[k]) > 0
+		}
 		if strict && !errors.Is(out.err, shwap.ErrNotFound) {
 			return outcome + "+NOTFOUND-LOST", "C06/notfound-not-reported/" + c.Wiring + "/" + cl,
 				fmt.Sprintf("%s: every answer that arrived was NOT_FOUND, the error is not shwap.ErrNotFound: %q", c, v6Short(out.err))
